@@ -82,7 +82,7 @@ Definition total_stake (c : Committee) : N := fold_right (fun x acc => snd x + a
 Definition quorum (c : Committee) : N := g_quorum_consensus (total_stake c).
 Definition csize (c : Committee) : N := N.of_nat (length (stakes c)).
 (* authorities are named by their rank in sorted key order *)
-Definition leader (c : Committee) (r : N) : N := r mod csize c.
+Definition leader (c : Committee) (r : N) : N := g_leader_index r (csize c).
 
 (* ---------- verification ---------- *)
 Inductive err :=
@@ -93,49 +93,50 @@ Arguments ROk {A}. Arguments RErr {A}. Arguments RPanic {A}.
 
 Definition memN (a : N) (l : list N) : bool := existsb (N.eqb a) l.
 
-Fixpoint scan_signers (c : Committee) (names : list N) (used : list N) (w : N) : res N :=
+(* [okst] is the regenerated "has voting rights" test of the certificate being scanned *)
+Fixpoint scan_signers (okst : N -> bool) (c : Committee) (names : list N) (used : list N) (w : N) : res N :=
   match names with
   | [] => ROk w
   | a :: rest =>
       if memN a used then RErr (EAuthorityReuse a)
       else let s := stake c a in
-           if s =? 0 then RErr (EUnknownAuthority a)
-           else scan_signers c rest (a :: used) (w + s)
+           if negb (okst s) then RErr (EUnknownAuthority a)
+           else scan_signers okst c rest (a :: used) (w + s)
   end.
 
 Definition qc_verify (c : Committee) (qc : QC) : res unit :=
-  match scan_signers c (map fst (qc_votes qc)) [] 0 with
+  match scan_signers g_qc_entry_stake c (map fst (qc_votes qc)) [] 0 with
   | RErr e => RErr e | RPanic s => RPanic s
   | ROk w =>
-      if w <? quorum c then RErr EQCRequiresQuorum
+      if negb (g_qc_weight w (quorum c)) then RErr EQCRequiresQuorum
       else if forallb (fun v => sig_ok (fst v) (CVote (qc_hash qc) (qc_round qc)) (snd v))
                       (qc_votes qc)
            then ROk tt else RErr EInvalidSignature
   end.
 
 Definition tc_verify (c : Committee) (tc : TC) : res unit :=
-  match scan_signers c (map (fun x => fst (fst x)) (tc_votes tc)) [] 0 with
+  match scan_signers g_tc_entry_stake c (map (fun x => fst (fst x)) (tc_votes tc)) [] 0 with
   | RErr e => RErr e | RPanic s => RPanic s
   | ROk w =>
-      if w <? quorum c then RErr ETCRequiresQuorum
+      if negb (g_tc_weight w (quorum c)) then RErr ETCRequiresQuorum
       else if forallb (fun v => match v with (a, s, hq) => sig_ok a (CTimeout (tc_round tc) hq) s end)
                       (tc_votes tc)
            then ROk tt else RErr EInvalidSignature
   end.
 
 Definition vote_verify (c : Committee) (v : Vote) : res unit :=
-  if stake c (v_author v) =? 0 then RErr (EUnknownAuthority (v_author v))
+  if negb (g_vote_stake (stake c (v_author v))) then RErr (EUnknownAuthority (v_author v))
   else if sig_ok (v_author v) (CVote (v_hash v) (v_round v)) (v_sig v) then ROk tt
   else RErr EInvalidSignature.
 
 Definition timeout_verify (c : Committee) (t : Timeout) : res unit :=
-  if stake c (t_author t) =? 0 then RErr (EUnknownAuthority (t_author t))
+  if negb (g_timeout_stake (stake c (t_author t))) then RErr (EUnknownAuthority (t_author t))
   else if negb (sig_ok (t_author t) (CTimeout (t_round t) (qc_round (t_high_qc t))) (t_sig t))
   then RErr EInvalidSignature
   else if qc_eqb (t_high_qc t) qc_genesis then ROk tt else qc_verify c (t_high_qc t).
 
 Definition block_verify (c : Committee) (b : Block) : res unit :=
-  if stake c (b_author b) =? 0 then RErr (EUnknownAuthority (b_author b))
+  if negb (g_block_stake (stake c (b_author b))) then RErr (EUnknownAuthority (b_author b))
   else if negb (sig_ok (b_author b) (CBlock (block_digest b)) (b_sig b)) then RErr EInvalidSignature
   else match (if qc_eqb (b_qc b) qc_genesis then ROk tt else qc_verify c (b_qc b)) with
        | RErr e => RErr e | RPanic s => RPanic s
@@ -152,8 +153,8 @@ Definition qm_append (c : Committee) (m : QCMaker) (v : Vote) : QCMaker * res (o
     let votes := qm_votes m ++ [(v_author v, v_sig v)] in
     let w := qm_weight m + stake c (v_author v) in
     let used := v_author v :: qm_used m in
-    if quorum c <=? w
-    then (mkQM 0 votes used, ROk (Some (mkQC (v_hash v) (v_round v) votes)))
+    if g_qcm_threshold w (quorum c)
+    then (mkQM g_qcm_reset votes used, ROk (Some (mkQC (v_hash v) (v_round v) votes)))
     else (mkQM w votes used, ROk None).
 
 Definition tm_append (c : Committee) (m : TCMaker) (t : Timeout) : TCMaker * res (option TC) :=
@@ -162,8 +163,8 @@ Definition tm_append (c : Committee) (m : TCMaker) (t : Timeout) : TCMaker * res
     let votes := tm_votes m ++ [(t_author t, t_sig t, qc_round (t_high_qc t))] in
     let w := tm_weight m + stake c (t_author t) in
     let used := t_author t :: tm_used m in
-    if quorum c <=? w
-    then (mkTM 0 votes used, ROk (Some (mkTC (t_round t) votes)))
+    if g_tcm_threshold w (quorum c)
+    then (mkTM g_tcm_reset votes used, ROk (Some (mkTC (t_round t) votes)))
     else (mkTM w votes used, ROk None).
 
 (* ---------- ghost history (Layer P events) ---------- *)
